@@ -65,8 +65,9 @@ def _wave_x2(case, v):
     t = _tags(v)
     if v["family"] in ("aero/CDw", "as/surface_CDw"):
         r = v["detail"].get("ratio")
-        return "symmetry" in t and r is not None and abs(r - 2.0) < 1e-6
-    if v["family"] in ("as/fuelburn", "as/L_equals_W"):
+        # exactly 2 in aero models; in coupled models the two converged states differ at the solver-tolerance level
+        return "symmetry" in t and r is not None and abs(r - 2.0) < (1e-6 if v["family"] == "aero/CDw" else 1e-4)
+    if v["family"] in ("as/fuelburn", "as/L_equals_W", "as/fuel_vol_delta"):
         return "depends_on_CDw" in t
     return False
 
@@ -95,10 +96,14 @@ def _pm_smear(case, v):
     e, tol = v.get("err"), v.get("tol")
     if e is None or not tol:
         return False
-    # tol is 1e-7 * scale for these families: accept only discrepancies below 1e-4 of the quantity's scale
+    cross = [float(t.split("=")[1]) for t in _tags(v) if t.startswith("pm_cross=")]
+    if not cross:
+        return False
+    # tol is 1e-7 * scale for these families; the discrepancy is bounded by a few times the share of a point load that lands on the
+    # other half (computed from the case's own mass positions and node stations)
     return v["family"] in ("as/disp", "as/vonmises", "as/CM", "as/sec_forces", "as/CL", "as/CD", "as/fuelburn", "as/L_equals_W", "as/total_cg",
                            "as/surface_CDi", "as/surface_CDv", "as/surface_CL1", "as/failure_exact_on_half", "as/failure_ks_relation",
-                           "as/S_ref") and e / tol < 1e3
+                           "as/S_ref", "as/fuel_vol_delta") and e / tol * 1e-7 <= 50.0 * cross[0] + 1e-6
 
 
 # ---------------------------------------------------------------------------------------------- C07
